@@ -42,10 +42,18 @@ def deltas(rng, p, n):
     return out
 
 
+def adversarial_deltas(p):
+    """metavariable-to-metavariable maps (aliasing, swaps, maps onto the keys of a notation node)"""
+    M = pi2v.MV
+    out = [[[i, M(j)]] for i in (0, 1, 2) for j in (0, 1, 2) if i != j]
+    out += [[[0, M(1)], [1, M(0)]], [[1, M(0)], [0, M(1)]], [[0, pi2v.IMP(M(0), M(1))], [1, M(2)]], [[2, M(0)], [0, pi2v.EV(1)]]]
+    return out
+
+
 def inst_cases(impl, terms, rng, n):
     cmds, meta = [], []
     for p in terms:
-        for d in deltas(rng, p, n):
+        for d in deltas(rng, p, n) + (adversarial_deltas(p) if (has_inst(p) or rng.random() < 0.15) else []):
             ids = [k for k, _ in d]; plugs = [g for _, g in d]
             meta.append((p, ids, plugs))
             if impl == 'rust':
